@@ -83,6 +83,10 @@ def monitorC05 (cx : Ctx) : List Finding := Id.run do
     match epi with
     | none => pure ()
     | some line =>
+      -- progress is only promised when the fault was transient: every session of the scenario
+      -- is still being driven in the epilogue (a peer that died is C07's subject)
+      let allAlive := cx.sc.sessions.all fun t => cx.sc.calls.any fun c => c.sid == t.sid && c.lineNo > line
+      if !allAlive then continue
       let calls := cx.sc.calls.toList.filter fun c => c.sid == s.sid
       let before := (calls.filter (·.lineNo < line)).reverse.head?.bind (·.snapInt "cur")
       let after := calls.reverse.head?.bind (·.snapInt "cur")
@@ -559,14 +563,18 @@ def monitorC18 (cx : Ctx) : List Finding := Id.run do
            | none => [])
         else c.eps
       for e in eps do
-        if e.po > PENDING_OUTPUT_SIZE + 1 then
+        -- the cap is checked when an input is queued; the endpoint is dropped by the next poll, and
+        -- one advance_frame call can forward several confirmed frames before that
+        if e.po > PENDING_OUTPUT_SIZE + 2 * mp + 16 then
           out := mkF cx "C18" "pending-output" s.sid c.lineNo s!"endpoint {e.addr}: {e.po} unacknowledged inputs" :: out
         if e.ri > 2 * mp + 2 then
           out := mkF cx "C18" "recv-inputs" s.sid c.lineNo s!"endpoint {e.addr}: {e.ri} remembered received inputs (window {mp})" :: out
         if e.pc > 2 * MAX_CHECKSUM_HISTORY_SIZE then
           out := mkF cx "C18" "pending-checksums" s.sid c.lineNo s!"endpoint {e.addr}: {e.pc} pending checksums" :: out
-        if e.sq > 0 && (c.call == ["poll"] || c.call == ["adv"]) then
-          out := mkF cx "C18" "send-queue" s.sid c.lineNo s!"endpoint {e.addr}: {e.sq} messages left in the send queue after a poll" :: out
+        -- a bare poll flushes everything; advance_frame polls first and may then queue one
+        -- checksum report per endpoint, which leaves with the next poll
+        if (e.sq > 0 && c.call == ["poll"]) || (e.sq > 1 && c.call == ["adv"]) then
+          out := mkF cx "C18" "send-queue" s.sid c.lineNo s!"endpoint {e.addr}: {e.sq} messages left in the send queue after {c.call}" :: out
   return (out.reverse.foldl (fun acc f => if acc.any fun g => g.clause == f.clause && g.sid == f.sid then acc else acc ++ [f]) [])
 
 /-- Three or more peers with a player dropping out is the space of C10 (where the implementation
